@@ -470,7 +470,8 @@ def configs(tier, seed):
     for sh in ([1], [2], [2, 1], [1, 2]) + (([3], [2, 2]) if full else ()):
         for arr in (False, True):
             add("box", "%s:arr=%s" % (sh, arr), shape=sh, arr=arr)
-    for sh in ([1], [2], [3], [1, 2], [2, 1]) + (([2, 2],) if full else ()):
+    # ([2, 2]: 4 entries sort 4! ways x threshold forks: > 4000 paths, > 30 min - outside; the 2-D shape handling is covered by [1, 2], [2, 1])
+    for sh in ([1], [2], [3], [1, 2], [2, 1]):
         add("l1proj", "%s:prox" % sh, shape=sh, via="prox")
         add("l1proj", "%s:thresh" % sh, shape=sh, via="thresh")
     for cplx in (False, True):
